@@ -423,6 +423,21 @@ def rule_pickle(chk, cls):
                node=red, file=PA, func='__reduce__',
                detail_bad='keys pickled per property %s vs add_property parameters %s (name,type,data,default,stride required)' % (sorted(keys), sorted(params)),
                detail_ok='pickled keys %s are add_property parameters' % sorted(keys))
+    vals = {}
+    for a in ast.walk(red):
+        if isinstance(a, ast.Assign) and isinstance(a.targets[0], ast.Subscript) and U(a.targets[0].value) == 'pinfo':
+            vals[M.const_str(a.targets[0].slice)] = U(a.value)
+    ploop = [l for l in ast.walk(red) if isinstance(l, ast.For) and U(l.iter) == 'self.properties.items()']
+    if ploop and isinstance(ploop[0].target, ast.Tuple):
+        kv, av = [U(e) for e in ploop[0].target.elts]
+        want = {'name': kv, 'type': av + '.get_c_type()', 'data': av + '.get_npy_array()',
+                'default': 'self.default_values[%s]' % kv, 'stride': 'self.stride.get(%s, 1)' % kv}
+        for k, w in sorted(want.items()):
+            chk.decide(vals.get(k) == w, 'pickle-table', 'record-value:' + k, node=red, file=PA, func='__reduce__',
+                       detail_bad='pickled %s is %s, expected %s (the whole array of the same property, ghosts/remote particles included)' % (k, vals.get(k), w),
+                       detail_ok=w)
+    else:
+        chk.violated('pickle-table', 'record-loop', node=red, file=PA, func='__reduce__', detail='properties are not pickled by iterating self.properties.items()')
     ckeys = set()
     for c in M.calls(red):
         if M.call_name(c) == 'dict' and M.enclosing(c, (ast.For,)) is not None and 'constants' in U(M.enclosing(c, (ast.For,)).iter):
@@ -450,7 +465,23 @@ def rule_replicate(chk, cls):
                 need = {'name', 'type', 'default', 'stride'}
                 chk.decide(need <= kws, 'replicated-property-keeps-attributes', '%s' % name, node=c, file=PA, func=name,
                            detail_bad='property replicated without %s' % sorted(need - kws), detail_ok='name,type,default,stride passed')
-    chk.floor('property replication sites', n, 3)
+    # empty_clone must replicate EVERY requested property, the built-in tag/pid/gid included: a fresh ParticleArray already has
+    # those three, so a "not already present" guard (as in ensure_properties) silently drops their type/default
+    ec = M.methods(cls).get('empty_clone')
+    if ec is None:
+        raise AnalysisError('anchor method vanished: ParticleArray.empty_clone')
+    sites = [c for c in M.calls(ec) if (M.call_name(c) or '').endswith('.add_property')]
+    ok = False
+    for c in sites:
+        loop = M.enclosing(c, (ast.For,))
+        guarded = M.enclosing(c, (ast.If,))
+        if loop is not None and U(loop.iter) == 'prop_names' and (guarded is None or not any(guarded is x for x in ast.walk(loop))):
+            ok = True
+    chk.decide(ok, 'replicated-property-keeps-attributes', 'empty_clone:every-property-unconditionally', node=ec, file=PA, func='empty_clone',
+               detail_bad='empty_clone no longer re-creates every requested property itself (a delegate that skips names the fresh clone already '
+                          'has loses the type/default of tag, pid, gid - e.g. a non-Local default tag)',
+               detail_ok='add_property for every name in prop_names, no presence guard')
+    chk.floor('property replication sites', n, 2)
 
 
 def main(chk):
